@@ -11,6 +11,7 @@ import SradModel.Drv.Admit
 import SradModel.Drv.Derive
 import SradModel.Drv.HostLoop
 import SradModel.Drv.HostLoopLts
+import SradModel.Drv.HostQ
 import SradModel.Drv.Topic
 import SradModel.Drv.Eon
 import SradModel.Drv.Metric
@@ -28,6 +29,7 @@ structure DState where
   derive : Option Derive.Schema := none
   hostloop : HLState := {}
   hll : HllD := {}
+  hostq : HostQD := {}
   eon : EonD := {}
   birth : BWorld := {}
   cmd : CmdSt := {}
@@ -58,6 +60,9 @@ def step (st : DState) (line : String) : DState × String :=
   | "eon" :: rest =>
     let (e, o) := stepEon st.eon rest
     ({ st with eon := e }, o)
+  | "hostq" :: rest =>
+    let (h, o) := stepHostQ st.hostq rest
+    ({ st with hostq := h }, o)
   | "hll" :: rest =>
     let (h, o) := stepHll st.hll rest
     ({ st with hll := h }, o)
